@@ -1515,9 +1515,11 @@ class GitTreeTransform(DiskTreeTransform):
             except BaseException:
                 mover.rollback()
                 raise
-            else:
-                mover.apply_deletions()
         self._tree._apply_index_changes(index_changes)
+        # Discard the replaced content only once the index describes the new
+        # layout: a failure here must not leave the index describing files
+        # that are no longer in place.
+        mover.apply_deletions()
         self._done = True
         self.finalize()
         return _TransformResults(modified_paths, self.rename_count)
